@@ -91,8 +91,8 @@ def add_out (rng, spec):
     lam = gen.C_MHZ / spec ['f']
     spec ['out'] = dict \
         ( opts = sorted (set (['far-field'] + [str (x) for x in rng.choice (['far-field-absolute', 'near-field', 'far-field'], size = 2)]))
-        , theta = [float (rng.choice ([0, 5, 12.5])), float (rng.choice ([10, 22.5, 30])), int (rng.integers (2, 5))]
-        , phi   = [float (rng.choice ([0, -45, 7.5])), float (rng.choice ([45, 90, 100])), int (rng.integers (1, 5))]
+        , theta = [float (rng.choice ([0, 5, 12.5, 30, 10])), float (rng.choice ([10, 22.5, 30, 0.1, 0.2])), int (rng.integers (2, 5))]
+        , phi   = [float (rng.choice ([0, -45, 7.5])), float (rng.choice ([45, 90, 100, 0.1, 0.7])), int (rng.integers (1, 5))]
         , ff_pwr = None if rng.random () < 0.4 else float (10 ** rng.uniform (-12, 12))
         , ff_dist = float (10 ** rng.uniform (0, 7))
         , nf_pwr = None if rng.random () < 0.4 else float (10 ** rng.uniform (-12, 12))
@@ -204,6 +204,16 @@ def check_model (spec):
         for rm, mm in zip (rep ['media'], m.media):
             J.tok ('media.eps', rm ['eps'], mm.permittivity)
             J.tok ('media.sigma', rm ['sigma'], mm.conductivity)
+        # type of boundary (1 linear, 2 circular) whenever there is more than one medium
+        if len (m.media) > 1:
+            want = {'linear': 1, 'circular': 2}.get (str (m.media [0].boundary))
+            try:
+                got = int (str (rep.get ('boundary', '')).split () [0])
+            except (ValueError, IndexError):
+                got = None
+            J.n += 1
+            if got != want:
+                bad ('media-lines', 'TYPE OF BOUNDARY printed as %r, the ground has a %s boundary' % (rep.get ('boundary'), m.media [0].boundary))
         # interface coordinate of every medium but the last, height of every medium but the first, radial screen
         for k, (rm, mm) in enumerate (zip (rep ['media'], m.media)):
             last, first = k == len (m.media) - 1, k == 0
